@@ -2,9 +2,9 @@
 
 use crate::cli;
 use crate::engine::*;
-use crate::util::{fnv_str, Tape};
+use crate::util::{self, fnv_str, Tape};
 use serde_json::{json, Value};
-use std::collections::{BTreeMap, BTreeSet};
+use std::collections::{BTreeMap, BTreeSet, HashMap};
 use std::time::Duration;
 
 #[derive(Clone, Debug)]
@@ -662,10 +662,224 @@ pub fn run(ctx: &mut Ctx) -> Result<(), Violation> {
         check_case(&c)
     });
     ctx.stage("random-requests", false, r)?;
+
+    let mut wjobs: Vec<(usize, usize, usize, bool)> = Vec::new();
+    for (i, n) in ctx.tier.pick(vec![12usize, 64, 65, 66, 70, 130], vec![12usize, 33, 63, 64, 65, 66, 67, 70, 100, 128, 129, 130, 200]).into_iter().enumerate() {
+        for k in 2..=3usize {
+            for shape in 0..3usize {
+                for u in [false, true] {
+                    if ctx.tier == Tier::Quick && (i + k + shape + u as usize) % 2 == 1 && n != 66 {
+                        continue;
+                    }
+                    wjobs.push((n, k, shape, u));
+                }
+            }
+        }
+    }
+    let seed = ctx.seed;
+    let r = par_jobs(ctx, &wjobs, |(n, k, shape, u), st| {
+        st.eval();
+        let decided = check_colors_wide(*n, *k, *shape, *u, seed)?;
+        st.class(if *n > 64 { "colors-wide:more-than-64-vertices" } else { "colors-wide:up-to-64-vertices" });
+        st.class(if *shape == 2 { "colors-wide:planted-clique(not colourable)" } else { "colors-wide:planted-colouring" });
+        if !decided {
+            st.class("colors-wide:search-gave-up(inconclusive)");
+            st.discarded += 1;
+        } else if *n > 11 && st.nontrivial(fnv_str(&format!("{} {} {} {}", n, k, shape, u))) {
+            st.nt_sample(|| json!({"kind": "colors-wide", "n": n, "k": k, "shape": shape, "undirected": u}));
+        }
+        Ok(())
+    });
+    ctx.stage("colours-on-graphs-with-planted-answers-60-to-130-vertices", true, r)?;
     Ok(())
 }
 
+// ---------------------------------------------------------------------------------------------
+// --colors on graphs of 60..130 vertices: brute force over colourings is out of reach, so the input
+// is built with a KNOWN answer - a planted proper colouring (answer: colourable) or a planted
+// (k+1)-clique (answer: not colourable) - and the output is searched for a covering clique by
+// back-tracking over the input vertices (planted clique first, then breadth-first along input edges).
+
+/// deterministic sparse graph on n vertices: (edges, k-colourable?)
+pub fn wide_colour_graph(n: usize, k: usize, shape: usize, seed: u64) -> (Vec<(String, String)>, bool) {
+    let mut rng = util::Rng::new(seed ^ ((n as u64) << 20) ^ ((k as u64) << 8) ^ shape as u64);
+    // vertex names in an order unrelated to their numbers, so that first-appearance ids differ from numbers
+    let name = |i: usize| format!("n{}", (i * 37 + 11) % (n + 7) * 1000 + i);
+    let mut col: Vec<usize> = (0..n).map(|i| i % k.max(1)).collect();
+    for c in col.iter_mut() {
+        if rng.below(4) == 0 {
+            *c = rng.below(k.max(1));
+        }
+    }
+    let mut es: Vec<(usize, usize)> = Vec::new();
+    let mut push = |a: usize, b: usize, es: &mut Vec<(usize, usize)>| {
+        if a != b && !es.contains(&(a, b)) && !es.contains(&(b, a)) {
+            es.push((a, b));
+        }
+    };
+    match shape % 3 {
+        0 => {
+            // a path, two-colourable along the path
+            for i in 0..n {
+                col[i] = i % 2;
+            }
+            for i in 0..n - 1 {
+                push(i, i + 1, &mut es);
+            }
+        }
+        _ => {
+            // spanning chain of properly coloured steps plus ~n extra properly coloured edges, many of them long
+            for i in 0..n - 1 {
+                if col[i] != col[i + 1] {
+                    push(i, i + 1, &mut es);
+                }
+            }
+            for _ in 0..n {
+                let a = rng.below(n);
+                let b = if rng.below(2) == 0 { n - 1 - rng.below(n.min(6)) } else { rng.below(n) };
+                if col[a] != col[b] {
+                    push(a, b, &mut es);
+                }
+            }
+        }
+    }
+    let mut colourable = k >= 2 || es.is_empty();
+    if shape % 3 == 2 {
+        // planted (k+1)-clique among late vertices: not k-colourable
+        let q: Vec<usize> = (0..=k).map(|j| n - 1 - 2 * j).collect();
+        for a in 0..q.len() {
+            for b in 0..a {
+                push(q[a], q[b], &mut es);
+            }
+        }
+        colourable = false;
+    }
+    if rng.below(2) == 0 {
+        es.reverse();
+    }
+    (es.into_iter().map(|(a, b)| if rng.below(2) == 0 { (name(a), name(b)) } else { (name(b), name(a)) }).collect(), colourable)
+}
+
+/// Back-tracking search for a clique of the output with one copy per input vertex. None = gave up.
+fn search_covering_clique(output: &[(String, String)], input: &[(String, String)], k: usize, scheme: CopyScheme, budget: u64) -> Option<bool> {
+    let vs = vertices_of(input);
+    let n = vs.len();
+    let idx: HashMap<&str, usize> = vs.iter().enumerate().map(|(i, s)| (s.as_str(), i)).collect();
+    // output adjacency over (vertex, colour)
+    let mut copy_of: HashMap<String, (usize, usize)> = HashMap::new();
+    for (i, v) in vs.iter().enumerate() {
+        for c in 0..k {
+            copy_of.insert(copy_name(scheme, v, c), (i, c));
+        }
+    }
+    let mut adj = vec![false; n * k * n * k];
+    for (a, b) in output {
+        if let (Some(&(i, c)), Some(&(j, d))) = (copy_of.get(a), copy_of.get(b)) {
+            adj[(i * k + c) * n * k + (j * k + d)] = true;
+            adj[(j * k + d) * n * k + (i * k + c)] = true;
+        }
+    }
+    // order: highest input degree first, then breadth-first
+    let mut nb: Vec<Vec<usize>> = vec![Vec::new(); n];
+    for (a, b) in input {
+        let (i, j) = (idx[a.as_str()], idx[b.as_str()]);
+        nb[i].push(j);
+        nb[j].push(i);
+    }
+    let mut order: Vec<usize> = Vec::new();
+    let mut seen = vec![false; n];
+    let mut starts: Vec<usize> = (0..n).collect();
+    starts.sort_by_key(|i| std::cmp::Reverse(nb[*i].len()));
+    for s0 in starts {
+        if seen[s0] {
+            continue;
+        }
+        let mut queue = std::collections::VecDeque::from([s0]);
+        seen[s0] = true;
+        while let Some(x) = queue.pop_front() {
+            order.push(x);
+            let mut ns = nb[x].clone();
+            ns.sort_by_key(|i| std::cmp::Reverse(nb[*i].len()));
+            for y in ns {
+                if !seen[y] {
+                    seen[y] = true;
+                    queue.push_back(y);
+                }
+            }
+        }
+    }
+    fn go(pos: usize, order: &[usize], chosen: &mut Vec<usize>, adj: &[bool], n: usize, k: usize, steps: &mut u64, budget: u64) -> Option<bool> {
+        if pos == order.len() {
+            return Some(true);
+        }
+        let v = order[pos];
+        for c in 0..k {
+            *steps += 1;
+            if *steps > budget {
+                return None;
+            }
+            let me = v * k + c;
+            if chosen.iter().all(|o| adj[me * n * k + o]) {
+                chosen.push(me);
+                match go(pos + 1, order, chosen, adj, n, k, steps, budget) {
+                    Some(true) => return Some(true),
+                    None => return None,
+                    Some(false) => {}
+                }
+                chosen.pop();
+            }
+        }
+        Some(false)
+    }
+    if n == 1 {
+        let present: BTreeSet<&String> = output.iter().flat_map(|(a, b)| [a, b]).collect();
+        return Some((0..k).any(|c| present.contains(&copy_name(scheme, &vs[0], c))));
+    }
+    let mut steps = 0u64;
+    go(0, &order, &mut Vec::new(), &adj, n, k, &mut steps, budget)
+}
+
+pub fn check_colors_wide(n: usize, k: usize, shape: usize, undirected: bool, seed: u64) -> Result<bool, Violation> {
+    let cj = json!({"kind": "colors-wide", "n": n, "k": k, "shape": shape, "undirected": undirected, "seed": seed.to_string()});
+    let v = |m: String| Violation::new(m, cj.clone());
+    let (input, want) = wide_colour_graph(n, k, shape, seed);
+    let scratch = cli::Scratch::new();
+    let csv: String = input.iter().map(|(a, b)| format!("{},{}\n", a, b)).collect();
+    let p = scratch.file(&cli::Scratch::awkward("in.csv"), csv.as_bytes());
+    let mut args = vec!["--convert".to_string(), p.to_string_lossy().into_owned(), "--colors".to_string(), k.to_string()];
+    if undirected {
+        args.push("-u".into());
+    }
+    let out = run_tool(&args);
+    if !out.ok() {
+        return Err(v(format!("--colors failed: {}", out.describe())));
+    }
+    let es = parse_output(&out.out(), false, undirected).map_err(|e| v(e))?;
+    let vs = vertices_of(&input);
+    let scheme = copy_scheme(&es, &vs, k).map_err(|e| v(e))?;
+    match search_covering_clique(&es, &input, k, scheme, 3_000_000) {
+        None => Ok(false),
+        Some(got) if got == want => Ok(true),
+        Some(got) => Err(v(format!(
+            "the input graph ({} vertices, {} edges, {}) {} {}-colourable but the output graph {} a clique covering every input vertex",
+            vs.len(),
+            input.len(),
+            if want { "built around a proper colouring" } else { "containing a planted clique of k+1 vertices" },
+            if want { "is" } else { "is not" },
+            k,
+            if got { "has" } else { "has no" }
+        ))),
+    }
+}
+
 pub fn replay(case: &Value) -> Check {
+    if case["kind"].as_str() == Some("colors-wide") {
+        let g = |k: &str| case[k].as_u64().map(|x| x as usize);
+        return match (g("n"), g("k"), g("shape"), case["undirected"].as_bool(), case["seed"].as_str().and_then(|s| s.parse::<u64>().ok())) {
+            (Some(n), Some(k), Some(sh), Some(u), Some(seed)) => check_colors_wide(n, k, sh, u, seed).map(|_| ()),
+            _ => Err(Violation::new("unreadable replay case", case.clone())),
+        };
+    }
     match Case::from_json(case) {
         Some(c) => check_case(&c),
         None => Err(Violation::new("unreadable replay case", case.clone())),
